@@ -107,6 +107,7 @@ def run(ctx, rep):
     bypass_rule(P, rep, 'R-C04-1b')
     no_inode_in_changed_test_rule(P, rep, 'R-C04-9')
     rehash_pairing_rule(P, rep, 'R-C04-8p')
+    rehash_covers_pending_hashes_rule(P, rep, 'R-C04-8r')
     from .C01 import used_parity_rule
     used_parity_rule(P, rep, 'R-C04-3p')
     from .carried import carried_flags_rule
@@ -662,6 +663,74 @@ def rehash_pairing_rule(P, rep, rid):
                       function=fn, construct='rehandle pairing')
     if n < 2:
         raise AnalysisBroken('rehash sites not recognised (%d)' % n)
+
+
+BLOCK_VISITORS = {'fs_par2block_find', 'fs_par2block_get', 'fs_par2block_maybe'}
+
+
+def rehash_covers_pending_hashes_rule(P, rep, rid):
+    """`rehash` swaps state->hash / prevhash and tells which function a stored hash was made with through the rehash bit of the info
+    word of the stripe.  A stripe never synced has no info word (info == 0) and is skipped by the marking loop -- but it can hold REP
+    blocks (a file recognised as a copy, or hashed by `sync -h`, and not synced yet) whose hash is of the OLD function: after the swap
+    they are compared with the NEW function and an intact file is reported as a data error, renamed .unrecoverable by fix, refused by
+    sync.  Rule: in state_rehash the `info == 0` side of the marking loop reaches the next position only through a visit of the blocks
+    of that position (fs_par2block_*), or the command is refused beforehand by a test that looks at the blocks."""
+    rep.rule(rid, 'state_rehash: a position without info word is skipped only after its blocks were visited (pending REP hashes are of the old function), or the command refuses an array with pending blocks', 1)
+    f = P.fn('state_rehash')
+    rep.analysed(f)
+    marks = list(f.calls('info_set_rehash'))
+    gets = list(f.calls('info_get'))
+    if not marks or not gets:
+        raise AnalysisBroken('state_rehash: info_get / info_set_rehash not found')
+    lp = f.loop_of(marks[0].block)
+    if lp is None:
+        raise AnalysisBroken('state_rehash: the marking loop was not found')
+    body = f.loops[lp]
+    from .C09 import depends_on
+    zero_edges = []
+    for b in body:
+        t = f.term(b)
+        if t.op != 'br' or len(t.ops) != 3:
+            continue
+        ci = f.inst_of(t.ops[0])
+        if ci is None or ci.op != 'icmp' or ci.pred not in ('eq', 'ne') or f.const_of(ci.ops[1]) != 0:
+            continue
+        if not any(depends_on(f, ci.ops[0], g_.id) for g_ in gets if g_.block in body):
+            continue
+        # ops[1] = false target, ops[2] = true target
+        zero_edges.append((t, t.ops[2][1] if ci.pred == 'eq' else t.ops[1][1]))
+    if len(zero_edges) != 1:
+        raise AnalysisBroken('state_rehash: the test of the info word against 0 was not found (%d candidates)' % len(zero_edges))
+    t, zb = zero_edges[0]
+    cg = P.callgraph()
+
+    def visits(c):
+        if c.callee in BLOCK_VISITORS:
+            return True
+        return bool(c.callee_full) and P.has(c.callee) and any(base(x) in BLOCK_VISITORS for x in P.reachable([c.callee_full], cg))
+    vis = [c for c in f.calls() if c.block in body and visits(c)]
+    stops = {c.id for c in vis}
+    for c in vis:
+        l2 = f.loop_of(c.block)
+        if l2 is not None and l2 != lp:
+            stops.add(f.blocks[l2][0].id)       # a loop over the disks that visits the block of each: entering it counts
+    r = f.reach([f.blocks[zb][0]], stop=stops, include_start=True)
+    skipped = f.blocks[lp][0].id in r
+    # alternative: refused beforehand
+    dead = dead_blocks(f)
+    refused = False
+    for c in f.calls():
+        if c.block in body or not visits(c) or not f.dominates(c, f.blocks[lp][0]):
+            continue
+        for b in range(len(f.blocks)):
+            tt = f.term(b)
+            if tt.op == 'br' and len(tt.ops) == 3 and depends_on(f, tt.ops[0], c.id) and (tt.ops[1][1] in dead or tt.ops[2][1] in dead):
+                refused = True
+    ok = (not skipped) or refused
+    rep.check(ok, rid, 'state_rehash: positions without info word', t.loc(),
+              ('blocks visited on the info == 0 side (%s)' % [c.callee for c in vis]) if not skipped else ('refused beforehand' if refused else
+              'the marking loop skips a position whose info word is 0 without looking at its blocks, and nothing refuses an array with pending blocks: a REP block there (copy detected / pre-hashed, not synced yet) keeps a hash of the old function that is then compared with the new one: intact files are reported as data errors'),
+              function='state_rehash', construct='info == 0 skipped')
 
 
 def scrub_marking_rule(P, rep, rid, L=None):
